@@ -13,7 +13,8 @@ RULE = ("Hypothesis-generated annotations with micro-exons/micro-introns and rea
         "beyond delta, skipped micro-exons, fake terminal exons, intron shifts, micro-intron retentions, mismatches "
         "next to junctions x 6 splice-correction strategies x data types; annotation-free stage with generated "
         "short-read BAMs (--illumina_bam). Non-trivial = at least one read whose corrected blocks differ from its "
-        "input blocks; distinct by scenario hash.")
+        "input blocks; distinct by scenario hash. 15 % of the reads carry their tail as an aligned terminal exon; "
+        "the short-read stage is repeated with the short reads split into two files (second half first).")
 ASSUMPTIONS = ["a read's 'original' alignment is its exons column (CIGAR blocks after polyA-exon trimming); with "
                "strategy none it is additionally compared with the CIGAR-derived blocks",
                "tolerance for moving onto an annotated site that is not of a reported isoform: delta"]
